@@ -225,16 +225,50 @@ def check(repo: Repo, run: Run) -> None:
                                    f"{rname}: `{expr}` (from the policy) is placed between {qc} characters without q(): a value containing {qc} or a backslash breaks or changes the literal", mod.loc(js))
     run.unit("quoted_holes_examined", n4)
     # V5 -----------------------------------------------------------------
-    q = mod.func("C7N_Rewriter.q")
+    from ..core.consteval import try_const as _tc
+
+    q = mod.func_n("C7N_Rewriter.q")
+    qcls = mod.cls("C7N_Rewriter")
     qs = ast.unparse(q)
-    repl = [ast.unparse(c) for c in ast.walk(q) if isinstance(c, ast.Call) and isinstance(c.func, ast.Attribute) and c.func.attr in ("replace", "translate")]
-    esc_quote = any("quote" in r for r in repl)
-    esc_bs = any("'\\\\'" in r or '"\\\\"' in r for r in repl)
-    esc_nl = any("\\n" in r for r in repl)
+    pairs = set()          # (character, replacement) applied to the text
+    opaque = False         # a transformation of the text that was not understood
+    for c in ast.walk(q):
+        if isinstance(c, ast.Call) and isinstance(c.func, ast.Attribute) and c.func.attr == "replace":
+            if len(c.args) == 2:
+                a, b = _tc(mod, c.args[0], qcls, q), _tc(mod, c.args[1], qcls, q)
+                if isinstance(a, str) and isinstance(b, str):
+                    pairs.add((a, b))
+                elif "quote" in ast.unparse(c):
+                    pairs.add(("<quote>", "\\<quote>"))
+                else:
+                    opaque = True
+            elif any(isinstance(a, ast.Starred) for a in c.args):
+                opaque = True  # replace(*pair): the pairs come from a table, looked for below
+        elif isinstance(c, ast.Call) and isinstance(c.func, ast.Attribute) and c.func.attr in ("translate", "sub", "encode"):
+            opaque = True
+        elif isinstance(c, ast.Call) and dotted(c.func) in ("re.sub", "json.dumps", "repr"):
+            opaque = True
+    # constant tables of (character, replacement) pairs used by the function (a loop or reduce applies them)
+    for n in ast.walk(q):
+        if isinstance(n, (ast.Name, ast.Attribute)) and isinstance(n.ctx, ast.Load):
+            val = _tc(mod, n, qcls, q)
+            if isinstance(val, (list, tuple)) and val and all(isinstance(e, (list, tuple)) and len(e) == 2 and all(isinstance(x, str) for x in e) for e in val):
+                pairs |= {tuple(e) for e in val}
+            elif isinstance(val, dict) and val and all(isinstance(k, str) and isinstance(v, str) for k, v in val.items()):
+                pairs |= set(val.items())
     uses_json = "json.dumps" in qs
-    run.ob("C19.V5", "q|delimiter", esc_quote or uses_json, "q() escapes the delimiter", mod.loc(q))
-    run.ob("C19.V5", "q|backslash", esc_bs or uses_json, "q() " + ("escapes" if esc_bs or uses_json else "does not escape") + " backslashes: `a\\nb` in a policy becomes a CEL escape sequence, and a trailing backslash swallows the closing quote", mod.loc(q))
-    run.ob("C19.V5", "q|newline", esc_nl or uses_json, "q() " + ("escapes" if esc_nl or uses_json else "does not escape") + " line feeds: a multi-line policy string is not a valid single-quoted CEL literal", mod.loc(q))
+    esc_quote = ("<quote>", "\\<quote>") in pairs or any(a in ("'", '"') and b == "\\" + a for a, b in pairs)
+    esc_bs = ("\\", "\\\\") in pairs
+    esc_nl = ("\n", "\\n") in pairs
+    for label, okv, text in (("delimiter", esc_quote, "q() escapes the delimiter"),
+                             ("backslash", esc_bs, "backslashes: `a\\nb` in a policy becomes a CEL escape sequence, and a trailing backslash swallows the closing quote"),
+                             ("newline", esc_nl, "line feeds: a multi-line policy string is not a valid single-quoted CEL literal")):
+        if okv or uses_json:
+            run.ob("C19.V5", f"q|{label}", True, "q() escapes " + (text.split(":")[0] if label != "delimiter" else "the delimiter"), mod.loc(q))
+        elif opaque:
+            run.inconclusive("C19.V5", f"q|{label}", "q() transforms the text in a way that was not understood (no constant replacement pair for this character was found)")
+        else:
+            run.ob("C19.V5", f"q|{label}", False, ("q() does not escape " + text) if label != "delimiter" else "q() does not escape the delimiter", mod.loc(q))
     # V7 -----------------------------------------------------------------
     bad7 = []
     for rname in rewriters:
